@@ -573,7 +573,7 @@ func Explore(fn *ssa.Function, b *ssa.BasicBlock, idx int, pred *ssa.BasicBlock,
 			inline := h.Inline
 			if h.NoAutoInline == false {
 				// new helper functions (extracted by a refactoring) are always explored in place
-				if cal := x.Call.StaticCallee(); cal != nil && newHelpers[cal] && cal.Blocks != nil {
+				if cal := directCallee(x); cal != nil && newHelpers[cal] && cal.Blocks != nil {
 					inline = func(*State, *ssa.Call) (*ssa.Function, bool) { return cal, false }
 				} else if cal == nil && !x.Call.IsInvoke() && len(st.Cont) > 0 {
 					// inside an inlined helper: a call of a function-typed parameter runs the closure (or
@@ -709,6 +709,13 @@ func bindCallee(st *State, call *ssa.Call, cal *ssa.Function) {
 	if mc, ok := cc.Value.(*ssa.MakeClosure); ok && mc.Fn == cal {
 		bindFree(mc)
 		direct = true
+	}
+	if !direct && cc.StaticCallee() == nil && !cc.IsInvoke() && directCallee(call) == cal {
+		// called through a local function variable with a single definition
+		direct = true
+		if mc := makeClosureOf(cc.Value, 0); mc != nil && mc.Fn == cal {
+			bindFree(mc)
+		}
 	}
 	if !direct {
 		// a closure handed to errgroup.Go, sync.Once.Do, filepath.Walk ...: its parameters
@@ -1146,4 +1153,42 @@ func withReturnTo(fn *ssa.Function, st *State, depth int, k func(*State), h *Hoo
 			k(s)
 		}, h)
 	}
+}
+
+// makeClosureOf finds the MakeClosure a function value was defined by (through single-assignment
+// locals and captured variables).
+func makeClosureOf(v ssa.Value, d int) *ssa.MakeClosure {
+	if d > 6 {
+		return nil
+	}
+	switch x := v.(type) {
+	case *ssa.MakeClosure:
+		return x
+	case *ssa.ChangeType:
+		return makeClosureOf(x.X, d+1)
+	case *ssa.UnOp:
+		if x.Op != token.MUL {
+			return nil
+		}
+		var cell *ssa.Alloc
+		switch a := x.X.(type) {
+		case *ssa.Alloc:
+			cell = a
+		case *ssa.FreeVar:
+			if cs := captured(a); len(cs) == 1 {
+				cell, _ = cs[0].(*ssa.Alloc)
+			}
+		}
+		if cell == nil {
+			return nil
+		}
+		if sts := storesTo(cell); len(sts) == 1 {
+			return makeClosureOf(sts[0].Val, d+1)
+		}
+	case *ssa.FreeVar:
+		if cs := captured(x); len(cs) == 1 {
+			return makeClosureOf(cs[0], d+1)
+		}
+	}
+	return nil
 }
